@@ -70,19 +70,22 @@ package boltz
 //@   nosafety
 //@   modifies *
 //@   callpre[looks-up-by-the-store's-load-rule] getEntityBucketForLoad@1: recv == store && arg0 == tx && arg1 == id
-//@   lensures[found-iff-the-load-rule-finds-it] called(getEntityBucketForLoad, 1) && (result1 == nil ==> result0 == (ret(getEntityBucketForLoad, 1) != nil))
+//@   lensures[found-iff-the-load-rule-finds-it-the-call-always-happens] called(getEntityBucketForLoad, 1)
+//@   lensures[found-iff-the-load-rule-finds-it] (result1 == nil ==> result0 == (ret(getEntityBucketForLoad, 1) != nil))
 //@ func (*BaseStore).FindById
 //@   props C15
 //@   nosafety
 //@   modifies *
 //@   callpre[looks-up-by-the-store's-load-rule] getEntityBucketForLoad@1: recv == store && arg0 == tx && arg1 == id
-//@   lensures[found-iff-the-load-rule-finds-it] called(getEntityBucketForLoad, 1) && (result2 == nil ==> result1 == (ret(getEntityBucketForLoad, 1) != nil))
+//@   lensures[found-iff-the-load-rule-finds-it-the-call-always-happens] called(getEntityBucketForLoad, 1)
+//@   lensures[found-iff-the-load-rule-finds-it] (result2 == nil ==> result1 == (ret(getEntityBucketForLoad, 1) != nil))
 //@ func (*BaseStore).LoadById
 //@   props C15
 //@   nosafety
 //@   modifies *
 //@   callpre[looks-up-by-the-store's-load-rule] getEntityBucketForLoad@1: recv == store && arg0 == tx && arg1 == id
-//@   lensures[not-found-iff-the-load-rule-finds-nothing] called(getEntityBucketForLoad, 1) && (ret(getEntityBucketForLoad, 1) == nil ==> result1 != nil)
+//@   lensures[not-found-iff-the-load-rule-finds-nothing-the-call-always-happens] called(getEntityBucketForLoad, 1)
+//@   lensures[not-found-iff-the-load-rule-finds-nothing] (ret(getEntityBucketForLoad, 1) == nil ==> result1 != nil)
 
 // ---- a query-driven delete runs the query on the store it was asked of (a child store selects only entities with child
 // data) and deletes each selected id through the store's own delete, in the caller's context ----
